@@ -94,6 +94,8 @@ pub fn cli_case(samples: &[Vec<Vec<u8>>], k: usize, rc: bool) -> Result<(), Stri
     let a: Vec<&str> = args.iter().map(|s| s.as_str()).collect();
     let t = Table::from_samples(k, rc, &names, samples);
     let any_empty = samples.iter().any(|s| build(s, k, rc).is_empty());
+    // an older, longer out.skf is already there: build must replace it
+    scratch::stale(&format!("{dir}/out.skf"));
     let b = cli::run(&a, &dir, None);
     if b.code != 0 {
         return if any_empty { Ok(()) } else { Err(format!("ska build failed: {}", String::from_utf8_lossy(&b.stderr).chars().rev().take(200).collect::<String>().chars().rev().collect::<String>())) };
